@@ -208,6 +208,9 @@ func c07Run(w *W) {
 		if ml := render(multiLine(ss, m)).src; ml != firsts[0] {
 			firsts = append(firsts, ml)
 		}
+		if sn := semiNewline(ss, m); sn != nil {
+			firsts = append(firsts, render(sn).src)
+		}
 		for _, first := range firsts {
 			if a := c07ParseAlone(first); a.err != nil {
 				continue // C02's business
